@@ -475,7 +475,7 @@ let exec (c : cursor) : outcome =
       Obs (Printf.sprintf "valid %d dead %d seed %d draws %d" (if valid then 1 else 0)
              (if sel.sel_dead_decided then 1 else 0) (if sel.sel_seed_decided then 1 else 0)
              (int_of_nat sel.sel_draws_used))
-  | "ROUND" | "ROUNDSEND" | "HS" | "HSEND" -> Obs "ok"
+  | "ROUND" | "ROUNDSEND" | "HS" | "HSEND" | "GROUND" -> Obs "ok"
   | "LEV" ->
       let ev =
         match next c with
@@ -647,6 +647,28 @@ let () =
                     Monitor.check "C17" (not (nl = 0 && ns > 0) || sd = 1)
                       "no live peer and a configured seed, but no seed was contacted"
                   with _ -> ())
+             | "GROUND" ->
+                 (* C17 on one real gossip round: destinations of the SYNs vs the four pools *)
+                 let self = next mc in
+                 let lst tag = expect mc tag; let k = next_int mc in repeat k (fun () -> next mc) in
+                 let p = lst "P" in
+                 let l = lst "L" in
+                 let dd = lst "D" in
+                 let sd = lst "S" in
+                 let dests = lst "DESTS" in
+                 let mem x xs = List.mem x xs in
+                 let base = if l = [] then p else l in
+                 Monitor.check "C17" (not (mem self dests)) "a gossip round contacted the node's own address";
+                 Monitor.check "C17" (List.for_all (fun x -> mem x base || mem x dd || mem x sd) dests)
+                   "a gossip round contacted an address that is in none of the pools (live or known peers, dead, seeds)";
+                 Monitor.check "C17" (List.length (List.filter (fun x -> not (mem x dd) && not (mem x sd)) dests) <= 3
+                                      && List.length dests <= 5
+                                      && List.length (List.filter (fun x -> not (mem x base)) dests) <= 2)
+                   "a gossip round contacted more than three live peers, or more than one dead peer / seed";
+                 Monitor.check "C17" (not (l = [] && sd <> []) || List.exists (fun x -> mem x sd) dests)
+                   "no live peer and a configured seed, but the round contacted no seed";
+                 Monitor.check "C17" (not (List.length l < List.length dd) || List.exists (fun x -> mem x dd) dests)
+                   "dead peers outnumber live peers but the round contacted no dead peer"
              | "ROUND" -> Monitor.on_round (next_int mc)
              | "ROUNDSEND" -> Monitor.on_rounds_end (next_int mc)
              | "HS" -> let a = next_int mc in let b = next_int mc in Monitor.on_hs_begin a b
